@@ -10,7 +10,81 @@ impl<V> DefMap<V> {
     #[verifier::external_body]
     pub fn contains_key(&self, k: &TastIdent) -> (r: bool) ensures r == self.keys().contains(k.0@) { unimplemented!() }
 }
-#[verifier::external_body] pub struct InstMap { _p: u64 }      // IndexMap<(String, Vec<Ty>), TastIdent>
+// IndexMap<(String, Vec<Ty>), TastIdent>: the instance table (opaque here: only that lookups/inserts do not touch anything else)
+#[verifier::external_body] pub struct InstMap { _p: u64 }
+impl InstMap {
+    #[verifier::external_body]
+    pub fn get(&self, k: &(String, Vec<Ty>)) -> (r: Option<&TastIdent>) { unimplemented!() }
+    #[verifier::external_body]
+    pub fn insert(&mut self, k: (String, Vec<Ty>), v: TastIdent) -> (r: Option<TastIdent>) { unimplemented!() }
+}
+impl<V> DefMap<V> {
+    pub uninterp spec fn at(&self, k: Seq<char>) -> V;
+    #[verifier::external_body]
+    pub fn get(&self, k: &TastIdent) -> (r: Option<&V>)
+        ensures r matches Some(v) ==> self.keys().contains(k.0@) && *v == self.at(k.0@), r is None ==> !self.keys().contains(k.0@),
+    { unimplemented!() }
+}
+// the substitution built for one instance: IndexMap<String, Ty>, a finite map by parameter name
+#[verifier::external_body]
+#[verifier::reject_recursive_types(K)]
+#[verifier::reject_recursive_types(V)]
+pub struct IndexMap<K, V> { _k: core::marker::PhantomData<(K, V)> }
+impl IndexMap<String, Ty> {
+    pub uninterp spec fn view(&self) -> Map<Seq<char>, Ty>;
+    #[verifier::external_body]
+    pub fn new() -> (r: Self) ensures r@ == Map::<Seq<char>, Ty>::empty() { unimplemented!() }
+    #[verifier::external_body]
+    pub fn insert(&mut self, k: String, v: Ty) -> (r: Option<Ty>) ensures final(self)@ == old(self)@.insert(k@, v) { unimplemented!() }
+}
+#[verifier::external_body]
+pub fn subst_ty(ty: &Ty, s: &IndexMap<String, Ty>) -> (r: Ty)
+    // mono::subst_ty keeps application heads as they are and only replaces type parameters (by the bound types)
+    ensures r == subst_ty_spec(*ty, *s),
+{ unimplemented!() }
+// what subst_ty does to well-formedness (assumed; subst_ty itself is not in this unit)
+pub broadcast proof fn subst_ty_twf(ty: Ty, s: IndexMap<String, Ty>, r: Ty, enums: DefMap<EnumDef>, structs: DefMap<StructDef>)
+    requires twf(ty, enums, structs), forall|k: Seq<char>| s@.contains_key(k) ==> twf(#[trigger] s@[k], enums, structs),
+        #[trigger] subst_ty_spec(ty, s) == r,
+    ensures #[trigger] twf(r, enums, structs),
+{ admit(); }
+pub uninterp spec fn subst_ty_spec(ty: Ty, s: IndexMap<String, Ty>) -> Ty;
+impl GlobalMonoEnv {
+    #[verifier::external_body] pub fn insert_enum(&mut self, d: EnumDef) { unimplemented!() }
+    #[verifier::external_body] pub fn insert_struct(&mut self, d: StructDef) { unimplemented!() }
+}
+#[verifier::external_body]
+pub fn ident_clone(a: &TastIdent) -> (r: TastIdent) ensures r == *a { unimplemented!() }
+#[verifier::external_body]
+pub fn key_of(name: &str, args: &Vec<Ty>) -> (r: (String, Vec<Ty>)) ensures r.0@ == name@, r.1@ == args@ { unimplemented!() }
+#[verifier::external_body]
+pub fn key_clone(k: &(String, Vec<Ty>)) -> (r: (String, Vec<Ty>)) ensures r == *k { unimplemented!() }
+#[verifier::external_body]
+pub fn enumdef_variants_clone(d: &EnumDef) -> (r: Vec<(TastIdent, Vec<Ty>)>) ensures r@ == d.variants@ { unimplemented!() }
+#[verifier::external_body]
+pub fn structdef_fields_clone(d: &StructDef) -> (r: Vec<(TastIdent, Ty)>) ensures r@ == d.fields@ { unimplemented!() }
+#[verifier::external_body]
+pub fn structdef_clone(d: &StructDef) -> (r: StructDef) ensures r == *d { unimplemented!() }
+#[verifier::external_body]
+pub fn rt_msg() -> (r: String) { unimplemented!() }
+#[verifier::external_body]
+pub fn rt_empty_string() -> (r: String) { unimplemented!() }
+
+// the definitions the typer hands over: application heads are plain names everywhere in the generic definitions
+pub open spec fn distinct_names(g: Seq<TastIdent>) -> bool { forall|i: int, j: int| 0 <= i < j < g.len() ==> g[i].0@ != g[j].0@ }
+pub open spec fn enumdef_ok(d: EnumDef, enums: DefMap<EnumDef>, structs: DefMap<StructDef>) -> bool {
+    distinct_names(d.generics@) &&
+    forall|i: int, j: int| 0 <= i < d.variants@.len() && 0 <= j < d.variants@[i].1@.len() ==> twf(#[trigger] d.variants@[i].1@[j], enums, structs)
+}
+pub open spec fn structdef_ok(d: StructDef, enums: DefMap<EnumDef>, structs: DefMap<StructDef>) -> bool {
+    distinct_names(d.generics@) &&
+    forall|i: int| 0 <= i < d.fields@.len() ==> twf((#[trigger] d.fields@[i]).1, enums, structs)
+}
+// C07: an instance is the generic definition with its parameters bound to exactly the instantiation arguments
+pub open spec fn binds_params(s: Map<Seq<char>, Ty>, generics: Seq<TastIdent>, args: Seq<Ty>, n: int) -> bool {
+    &&& forall|j: int| 0 <= j < n ==> s.contains_key((#[trigger] generics[j]).0@) && s[generics[j].0@] == args[j]
+    &&& forall|k: Seq<char>| s.contains_key(k) ==> exists|j: int| 0 <= j < n && (#[trigger] generics[j]).0@ == k
+}
 
 // Ty::get_constr_name_unsafe (tast.rs): the head constructor's name; panics on anything else (a precondition here)
 pub open spec fn has_constr_name(t: Ty) -> bool
@@ -54,21 +128,33 @@ pub open spec fn collapsed(t: Ty, known: Set<Seq<char>>) -> bool
         _ => true,
     }
 }
-// every application inside t is `Name[args]` with a plain enum/struct name as head (what the typer produces; for other heads
-// get_constr_name_unsafe panics or the head itself would be rewritten)
-pub open spec fn apps_wellformed(t: Ty) -> bool
+// well-formed input types (what the typer produces; assumed): every application inside t is `Name[args]` with a plain enum/struct
+// name as head, and a known generic is applied to as many arguments as it declares parameters
+pub open spec fn arity_of(name: Seq<char>, enums: DefMap<EnumDef>, structs: DefMap<StructDef>) -> Option<int> {
+    if enums.keys().contains(name) { Some(enums.at(name).generics@.len() as int) }
+    else if structs.keys().contains(name) { Some(structs.at(name).generics@.len() as int) }
+    else { None }
+}
+pub open spec fn twf(t: Ty, enums: DefMap<EnumDef>, structs: DefMap<StructDef>) -> bool
     decreases t,
 {
     match t {
-        Ty::TApp { ty, args } => (*ty is TEnum || *ty is TStruct) && forall|i: int| 0 <= i < args.len() ==> apps_wellformed(#[trigger] args[i]),
-        Ty::TTuple { typs } => forall|i: int| 0 <= i < typs.len() ==> apps_wellformed(#[trigger] typs[i]),
-        Ty::TFunc { params, ret_ty } => apps_wellformed(*ret_ty) && forall|i: int| 0 <= i < params.len() ==> apps_wellformed(#[trigger] params[i]),
-        Ty::TArray { elem, .. } => apps_wellformed(*elem),
-        Ty::TVec { elem } => apps_wellformed(*elem),
-        Ty::TRef { elem } => apps_wellformed(*elem),
+        Ty::TApp { ty, args } => (*ty is TEnum || *ty is TStruct)
+            && (arity_of(constr_name(*ty), enums, structs) matches Some(n) ==> args.len() == n)
+            && forall|i: int| 0 <= i < args.len() ==> twf(#[trigger] args[i], enums, structs),
+        Ty::TTuple { typs } => forall|i: int| 0 <= i < typs.len() ==> twf(#[trigger] typs[i], enums, structs),
+        Ty::TFunc { params, ret_ty } => twf(*ret_ty, enums, structs) && forall|i: int| 0 <= i < params.len() ==> twf(#[trigger] params[i], enums, structs),
+        Ty::TArray { elem, .. } => twf(*elem, enums, structs),
+        Ty::TVec { elem } => twf(*elem, enums, structs),
+        Ty::TRef { elem } => twf(*elem, enums, structs),
         _ => true,
     }
 }
 impl<'a> TypeMono<'a> {
     pub open spec fn known(&self) -> Set<Seq<char>> { self.enum_base.keys().union(self.struct_base.keys()) }
+    // the generic definitions are well formed and instantiated at their declared arity (established by the typer; assumed here)
+    pub open spec fn defs_ok(&self) -> bool {
+        &&& forall|k: Seq<char>| self.enum_base.keys().contains(k) ==> enumdef_ok(#[trigger] self.enum_base.at(k), self.enum_base, self.struct_base)
+        &&& forall|k: Seq<char>| self.struct_base.keys().contains(k) ==> structdef_ok(#[trigger] self.struct_base.at(k), self.enum_base, self.struct_base)
+    }
 }
